@@ -168,6 +168,15 @@ def check(ctx: Ctx) -> None:
                              "'event set and mailbox is None' (the body would not run in the main thread)",
                              path=evt.cfg.describe_path(pth))
         ob.require(n_false >= 1, "no fall-through path found in spawn / _try_send_to_primary_thread")
+        # waiting for the occupant of the mailbox must only wait: Reply.get() would re-raise the previous body's stored
+        # exception (an interrupt) in the receiver thread, which takes it for a terminate request and shuts the gateway down
+        for pth, st in evt.run(limit=40000):
+            for e in st.events:
+                if e.kind == "call" and e.recv == BOX and e.attr not in (None, "waitfinish") and e.attr in ("get", "run", "_result", "_exc"):
+                    ob.violation(ft, e.node, f"the hand-over waits for the previous task with Reply.{e.attr}(), which re-raises that task's stored exception in the "
+                                             "receiver thread: after an interrupted body the next remote_exec takes the gateway down instead of running",
+                                 construct=f"mailbox occupant .{e.attr}()")
+                    break
         # writer census: who stores None into the mailbox
         writers = []
         for f in repo.scan_funcs():
